@@ -67,7 +67,9 @@ Checks3 == {"ok", "bad", "grey"}
 (*       whose Handshake callback returns an error),                                            *)
 (*       sel |-> "keep" (leaves config.Protocol as it found it) | "none" (clears it) |            *)
 (*               "chat" (selects "chat" if it is in the list, nothing otherwise),                 *)
-(*       preset |-> Server.Config.Protocol before the request]                                   *)
+(*       preset |-> Server.Config.Protocol before the request,                                   *)
+(*       hdr |-> Server.Config.Header carries X-Extra: 1 and values for Upgrade, Connection,        *)
+(*               Sec-WebSocket-Accept and Sec-WebSocket-Protocol that must not reach the wire]      *)
 
 SrvMethod(h)  == IF h.line[1] = "GET" THEN "ok" ELSE "bad"
 
@@ -155,14 +157,29 @@ ServerAllowed(h, cfg, final, o) ==
     /\ (\A c \in DOMAIN ck : ck[c] = "ok") => o.acc
     /\ IF o.acc THEN SrvAcceptOK(h, cfg, final, o) ELSE SrvRejectOK(ck, o)
 
-\* why an outcome is not allowed (for the signature of a finding)
+\* why an outcome is not allowed (it becomes the signature of a finding)
+SrvBadName(h, c) ==
+    CASE c = "upgrade" -> IF "websocket" \notin LTokSet(h.hdrs, HUpgrade) THEN "upgrade-without-websocket"
+                          ELSE "connection-without-upgrade-token"
+      [] c = "key"     -> "no-key"
+      [] c = "version" -> "version-not-13"
+      [] c = "origin"  -> "origin-policy"
+      [] c = "proto"   -> "protocol-not-chosen"
+      [] OTHER         -> c
 ServerWhy(h, cfg, final, o) ==
     LET ck == SrvChecks(h, cfg, final)
         bad == {c \in DOMAIN ck : ck[c] = "bad"} IN
-    IF o.acc /\ bad # {} THEN <<"accepted-must-reject", bad>>
+    IF o.acc /\ bad # {} THEN <<"accepted-must-reject", {SrvBadName(h, c) : c \in bad}>>
     ELSE IF ~o.acc /\ (\A c \in DOMAIN ck : ck[c] = "ok") THEN <<"rejected-must-accept", {o.cls}>>
-    ELSE IF o.acc THEN <<"bad-101", SrvAcceptFaults(h, cfg, final, o)>>
-    ELSE <<"bad-reject", {o.cls} \cup (IF o.verhdr THEN {} ELSE {"no-version-header"})>>
+    ELSE IF o.acc THEN <<"bad-101", {IF c # "proto" THEN c
+                                     ELSE IF o.proto # <<>> /\ \E i \in DOMAIN o.proto : o.proto[i] \notin Range(Offered(h))
+                                          THEN "echo-not-offered" ELSE "echo-not-the-selected"
+                                     : c \in SrvAcceptFaults(h, cfg, final, o)}>>
+    ELSE <<"bad-reject", (IF o.status \notin 400..499 \/ o.handler \/ ~o.closed \/ o.accept # <<>> \/ o.first # "" THEN {"shape"} ELSE {})
+                          \cup (IF o.cls \notin DOMAIN ck THEN {"unknown-error-text"}
+                                ELSE IF ck[o.cls] = "ok" THEN {"blames-" \o o.cls} ELSE {})
+                          \cup (IF ck.version = "bad" /\ (\A c \in DOMAIN ck \ {"version"} : ck[c] = "ok") /\ ~o.verhdr
+                                THEN {"no-version-header"} ELSE {})>>
 
 \* the decision procedure in the shape of ReadHandshake / newServerConn / AcceptHandshake:
 \* checks in the code's order on the first line of each field; first failure names the error.
@@ -234,13 +251,16 @@ ClientAllowed(r, cfg, key, o) ==
 
 ClientWhy(r, cfg, key, o) ==
     LET ck == CliChecks(r, cfg, key)
-        bad == {c \in DOMAIN ck : ck[c] = "bad"} IN
+        bad == {c \in DOMAIN ck : ck[c] = "bad"}
+        ts  == Toks(r.hdrs, HProto) IN
     IF o.ok /\ bad # {} THEN <<"succeeded-must-fail", bad>>
     ELSE IF ~o.ok /\ (\A c \in DOMAIN ck : ck[c] = "ok") THEN <<"failed-must-succeed", {o.cls}>>
     ELSE IF o.after # 0 THEN <<"wrote-after-request", {}>>
-    ELSE IF o.ok THEN <<"bad-success", {c \in {"first", "cfgproto"} :
-                            IF c = "first" THEN r.tail /\ o.first # "msg:hello" ELSE ~(r.tail /\ o.first # "msg:hello")}>>
-    ELSE <<"bad-failure", {o.cls}>>
+    ELSE IF o.ok THEN <<"bad-success", (IF r.tail /\ o.first # "msg:hello" THEN {"bytes-behind-head-lost"} ELSE {})
+                                        \cup (IF ts # <<>> /\ ~(Len(o.cfgproto) = 1 /\ o.cfgproto[1] \in Range(ts) \cap Range(cfg.protocols))
+                                              THEN {"config-protocol"} ELSE {})
+                                        \cup (IF ~o.isclient \/ o.cls # "" THEN {"shape"} ELSE {})>>
+    ELSE <<"bad-failure", IF o.cls \notin DOMAIN ck THEN {"unknown-error"} ELSE IF ck[o.cls] = "ok" THEN {"blames-" \o o.cls} ELSE {"shape"}>>
 
 CliFail(cls) == [ok |-> FALSE, cls |-> cls, after |-> 0, cfgproto |-> <<>>, first |-> "", isclient |-> TRUE]
 \* hybiClientHandshake after http.ReadResponse: ordered checks on the first line of each field
